@@ -6,10 +6,12 @@ use aelys_syntax::{Expr, ExprKind, TokenKind};
 
 impl Parser {
     pub(super) fn bit_or(&mut self) -> Result<Expr> {
+        let outer = self.chain_begin();
+        let mut links = 0;
         let mut left = self.bit_xor()?;
 
         while let Some(op) = self.match_binary_op(&[TokenKind::Pipe]) {
-            self.chain_link()?;
+            self.chain_link(&mut links)?;
             let right = self.bit_xor()?;
             let span = left.span.merge(right.span);
             left = Expr::new(
@@ -22,14 +24,17 @@ impl Parser {
             );
         }
 
+        self.chain_end(outer, links);
         Ok(left)
     }
 
     fn bit_xor(&mut self) -> Result<Expr> {
+        let outer = self.chain_begin();
+        let mut links = 0;
         let mut left = self.bit_and()?;
 
         while let Some(op) = self.match_binary_op(&[TokenKind::Caret]) {
-            self.chain_link()?;
+            self.chain_link(&mut links)?;
             let right = self.bit_and()?;
             let span = left.span.merge(right.span);
             left = Expr::new(
@@ -42,14 +47,17 @@ impl Parser {
             );
         }
 
+        self.chain_end(outer, links);
         Ok(left)
     }
 
     fn bit_and(&mut self) -> Result<Expr> {
+        let outer = self.chain_begin();
+        let mut links = 0;
         let mut left = self.equality()?;
 
         while let Some(op) = self.match_binary_op(&[TokenKind::Ampersand]) {
-            self.chain_link()?;
+            self.chain_link(&mut links)?;
             let right = self.equality()?;
             let span = left.span.merge(right.span);
             left = Expr::new(
@@ -62,14 +70,17 @@ impl Parser {
             );
         }
 
+        self.chain_end(outer, links);
         Ok(left)
     }
 
     fn equality(&mut self) -> Result<Expr> {
+        let outer = self.chain_begin();
+        let mut links = 0;
         let mut left = self.comparison()?;
 
         while let Some(op) = self.match_binary_op(&[TokenKind::EqEq, TokenKind::BangEq]) {
-            self.chain_link()?;
+            self.chain_link(&mut links)?;
             let right = self.comparison()?;
             let span = left.span.merge(right.span);
             left = Expr::new(
@@ -82,10 +93,13 @@ impl Parser {
             );
         }
 
+        self.chain_end(outer, links);
         Ok(left)
     }
 
     fn comparison(&mut self) -> Result<Expr> {
+        let outer = self.chain_begin();
+        let mut links = 0;
         let mut left = self.shift()?;
 
         while let Some(op) = self.match_binary_op(&[
@@ -94,7 +108,7 @@ impl Parser {
             TokenKind::Gt,
             TokenKind::GtEq,
         ]) {
-            self.chain_link()?;
+            self.chain_link(&mut links)?;
             let right = self.shift()?;
             let span = left.span.merge(right.span);
             left = Expr::new(
@@ -107,14 +121,17 @@ impl Parser {
             );
         }
 
+        self.chain_end(outer, links);
         Ok(left)
     }
 
     fn shift(&mut self) -> Result<Expr> {
+        let outer = self.chain_begin();
+        let mut links = 0;
         let mut left = self.term()?;
 
         while let Some(op) = self.match_binary_op(&[TokenKind::Shl, TokenKind::Shr]) {
-            self.chain_link()?;
+            self.chain_link(&mut links)?;
             let right = self.term()?;
             let span = left.span.merge(right.span);
             left = Expr::new(
@@ -127,14 +144,17 @@ impl Parser {
             );
         }
 
+        self.chain_end(outer, links);
         Ok(left)
     }
 
     fn term(&mut self) -> Result<Expr> {
+        let outer = self.chain_begin();
+        let mut links = 0;
         let mut left = self.factor()?;
 
         while let Some(op) = self.match_binary_op(&[TokenKind::Plus, TokenKind::Minus]) {
-            self.chain_link()?;
+            self.chain_link(&mut links)?;
             let right = self.factor()?;
             let span = left.span.merge(right.span);
             left = Expr::new(
@@ -147,16 +167,19 @@ impl Parser {
             );
         }
 
+        self.chain_end(outer, links);
         Ok(left)
     }
 
     fn factor(&mut self) -> Result<Expr> {
+        let outer = self.chain_begin();
+        let mut links = 0;
         let mut left = self.unary()?;
 
         while let Some(op) =
             self.match_binary_op(&[TokenKind::Star, TokenKind::Slash, TokenKind::Percent])
         {
-            self.chain_link()?;
+            self.chain_link(&mut links)?;
             let right = self.unary()?;
             let span = left.span.merge(right.span);
             left = Expr::new(
@@ -169,6 +192,7 @@ impl Parser {
             );
         }
 
+        self.chain_end(outer, links);
         Ok(left)
     }
 }
